@@ -613,6 +613,47 @@ def gen_skeletons(srcs):
     out.append("  [" + ";\n   ".join('("%s"%%string, "%s"%%string, [%s])' % (k, f, "; ".join('"%s"%%string' % c for c in cs)) for k, f, cs in items) + "].")
     return "\n".join(out)
 
+# ------------------------------------------------------------------ memory-moving call sites with their arguments
+MEM_CALLS = re.compile(r'\b(copy|copy_nonoverlapping|copy_from_slice|set_len|truncate_unchecked|write|realloc|alloc|dealloc|'
+                       r'with_additional|with_exact_capacity|with_capacity|amortized_growth|layout_from_capacity|get_unchecked_mut|add)\s*\(')
+def norm_ws(t):
+    return re.sub(r'\s+', ' ', t).strip()
+def gen_mem_sites(srcs):
+    """for every hand-modelled function: each memory-moving / sizing call with its full argument text, and the `let`
+    bindings of the identifiers those arguments mention — the pointer arithmetic the model's offsets were read from"""
+    items = []
+    for key, fn, occ in SKEL_FUNCS:
+        body = strip_debug_asserts(fn_body(strip_cfg_verif(srcs[key]), fn, occ, key))
+        sites = []
+        idents = set()
+        for m in MEM_CALLS.finditer(body):
+            i = m.end() - 1
+            depth = 0; k = i
+            while k < len(body):
+                if body[k] == '(': depth += 1
+                elif body[k] == ')':
+                    depth -= 1
+                    if depth == 0: break
+                k += 1
+            text = norm_ws(m.group(1) + body[i:k + 1])
+            if m.group(1) == 'add' and not re.search(r'\.\s*add\s*\($', body[max(0, m.start() - 3):m.end()]):
+                continue
+            sites.append(text)
+            idents.update(re.findall(r'[A-Za-z_][A-Za-z0-9_]*', body[i:k + 1]))
+        for m in re.finditer(r'\[([^\[\]]*\.\.[^\[\]]*)\]', body):
+            sites.append('range[' + norm_ws(m.group(1)) + ']')
+            idents.update(re.findall(r'[A-Za-z_][A-Za-z0-9_]*', m.group(1)))
+        lets = []
+        for m in re.finditer(r'\blet\s+(?:mut\s+)?([A-Za-z_][A-Za-z0-9_]*)\s*(?::[^=;]*)?=\s*([^;]*);', body):
+            if m.group(1) in idents:
+                lets.append('let %s = %s' % (m.group(1), norm_ws(m.group(2))))
+        items.append((key, fn, lets + sites))
+    esc = lambda t: t.replace('"', '""')
+    out = ["(* ---- memory-moving call sites of the hand-modelled functions, with arguments and the bindings they use ---- *)",
+           "Definition mem_sites : list (string * string * list string) :=",
+           "  [" + ";\n   ".join('("%s"%%string, "%s"%%string, [%s])' % (k, f, "; ".join('"%s"%%string' % esc(c) for c in cs)) for k, f, cs in items) + "]."]
+    return "\n".join(out)
+
 # ------------------------------------------------------------------ every function of lib.rs / traits.rs: all its calls
 ALL_CALLS = re.compile(r'\b([A-Za-z_][A-Za-z0-9_]*)\s*(?:::<[^>]*>)?\s*(?:\(|!\s*[(\[{])')
 NOT_CALLS = {'if', 'while', 'for', 'match', 'return', 'loop', 'fn', 'let', 'unsafe', 'move', 'in', 'as', 'else', 'impl', 'where', 'debug_assert', 'debug_assert_eq'}
@@ -670,6 +711,7 @@ def main():
         parts.append(o)
         parts.append(gen_digits(raw['num']))
         parts.append(gen_skeletons(srcs))
+        parts.append(gen_mem_sites(srcs))
         parts.append(gen_wrappers(srcs))
     except TranslationError as e:
         sys.stderr.write(f"translate.py: TRANSLATION FAILED: {e}\n")
